@@ -36,13 +36,21 @@ var imports = map[string][]core.Import{
 	},
 	"C11": {{From: "C34", Clauses: []string{"C34.a", "C34.b", "C34.c"}, Why: "streams and the reaper exclude each other through rsync.MultiRSW"}},
 	"C14": {{From: "C01", Clauses: []string{"C01.a"}, Why: "a statement is rewritten only if the endpoint that replicates it runs the rewriter on it with rewriting switched on"}},
+	"C17": {{From: "C15", Clauses: []string{"C15.a"}, Why: "a read can switch off query_only (and then write) only if a guarded PRAGMA gets past the check that every read path runs first"}},
 	"C18": {{From: "C19", Clauses: []string{"C19.b", "C19.c"}, Why: "every permission check asks the credential store: what it loaded must be what the file says"}},
 	"C20": {{From: "C02", Clauses: []string{"C02.b", "C02.c"}, Why: "forwarding happens only if a non-leader store answers ErrNotLeader instead of acting locally"}},
-	"C21": {{From: "C34", Clauses: []string{"C34.e"}, Why: "a backup is point-in-time consistent only while it holds the snapshot gate"}},
-	"C22": {{From: "C07", Why: "after a load or boot the snapshot store must rebuild the loaded database: the reaper consolidates exactly the newest full snapshot and what follows it"}},
+	"C21": {
+		{From: "C34", Clauses: []string{"C34.e"}, Why: "a backup is point-in-time consistent only while it holds the snapshot gate"},
+		{From: "C20", Clauses: []string{"C20.a/DECIDE:(*Proxy).Backup", "C20.a/TABLE:Proxy.Backup"}, Why: "a backup requested from a follower is the leader's stream written once into the caller's writer: the forwarding template of Proxy.Backup (one local attempt, one remote call, its result returned)"},
+	},
+	"C22": {
+		{From: "C07", Why: "after a load or boot the snapshot store must rebuild the loaded database: the reaper consolidates exactly the newest full snapshot and what follows it"},
+		{From: "C04", Clauses: []string{"C04.a"}, Why: "a load or boot breaks the WAL lineage: segments staged from the replaced database must not be packaged with the new one"},
+	},
 	"C23": {{From: "C24", Why: "queued writes travel through the batching queue"}},
 	"C27": {{From: "C25", Clauses: []string{"C25.a/INIT:(*CDCStreamer).CommitHook:pending-group-own-events", "C25.a/INIT:(*CDCStreamer).Reset:pending-group-own-events"}, Why: "the events of a group are the rows changed by its own transaction only if each pending group owns its event list"}},
 	"C31": {{From: "C34", Clauses: []string{"C34.e"}, Why: "shutdown waits on the snapshot gate: it returns only if every holder releases it"}},
+	"C34": {{From: "C11", Clauses: []string{"C11.b"}, Why: "the stream wrapper pairs the store's read lock with exactly one release, also when Close is called twice or the underlying close fails"}},
 	"C35": {{From: "C18", Clauses: []string{"C18.b", "C18.c"}, Why: "no byte sequence may change state without passing the permission checks of the inter-node handler"}},
 	"C38": {{From: "C34", Clauses: []string{"C34.a", "C34.b"}, Why: "a linearizable read waits on rsync.ReadyTarget"}},
 }
